@@ -450,6 +450,7 @@ def check_cbrt(rep, F, rule='ROOT-SHAPE'):
                     else:
                         verdicts.add('violation')
                         why['violation'] = 'the "discarded part is zero" flag (%s) is decided from the trimmed digits of the floor root alone: root^3 is never compared with the radicand, so an inexact root whose trimmed digits are all zero is rounded as exact' % TB.show(inst(bo))[:60]
+    nlead = _leading_digit_clause(rep, F, fn, paths, pe.effects, rule)
     if not verdicts:
         rep.undecided_anchor(rule, key, 'no from_digit_and_lazy_trailing_zeros call found on the paths of impl_cbrt_uint_scale', fn.where())
         return 0
@@ -459,4 +460,83 @@ def check_cbrt(rep, F, rule='ROOT-SHAPE'):
         rep.undecided(rule, key, why['undecided'], fn.where())
     else:
         rep.ok(rule, key, 'the trailing-zero flag is true only where nth_root(R,3)^3 == R holds (all %d paths)' % len(paths), fn.where())
+    return 1 + nlead
+
+
+def _leading_digit_clause(rep, F, fn, paths, effects, rule):
+    """The first discarded digit handed to the rounding data.  The discarded part is REM = div_rem(root, 10^T).1 < 10^T,
+    written as the digit vector D = to_radix_le(REM, 10), so len(D) <= T and the first discarded digit (position T-1) is
+    the top digit of D exactly when len(D) == T and is 0 otherwise.  Decided per path from the comparisons of len(D)
+    with T on it: the path that takes split_last(D) must imply len(D) == T, the path that passes the constant 0 must
+    imply len(D) < T.  Comparisons mentioning len(D) that are not linear in (len(D), T) leave the clause undecided."""
+    from rules import numeral as _N
+    key = fn.key + ':root-shape[first-discarded-digit]'
+    verdict = {}
+    for (atoms, out), eff in zip(paths, effects):
+        for c, a in eff:
+            if not (TB._plain(c).endswith('from_digit_and_lazy_trailing_zeros') and len(a) == 3):
+                continue
+            a = _N.lazy_ctor_args(F, c, a)
+            dg = _N.norm(a[1])
+            D = None
+            if dg == ('const', 0):
+                kind = 'zero'
+            elif _is(dg, 'field') and dg[2] == '0' and _N._callp(_N.norm(dg[1]), r'Option::unwrap$') and _N._callp(_N.norm(_N.norm(dg[1])[2][0]), r'split_last$'):
+                kind = 'top'
+                D = _N.view(_N.norm(_N.norm(dg[1])[2][0])[2][0])
+            else:
+                continue                                  # another way of reading the digit: not this clause's shape
+            xs = set(range(-6, 1))                        # x = len(D) - T, at most 0
+            und = None
+            seenD = False
+            for term, (rel, val) in atoms:
+                t0 = _N.norm(term)
+                if 'to_radix_le' not in TB.show(t0) or not (_is(t0, 'bin') and t0[1] in ('Lt', 'Le', 'Gt', 'Ge', 'Eq', 'Ne')):
+                    continue
+                d = _N.add(_N.lin2(t0[2]), _N.lin2(t0[3]), -1)
+                lens = [k for k in d if isinstance(k, tuple) and k and k[0] == 'len' and 'to_radix_le' in TB.show(k[1])]
+                if len(lens) != 1 or abs(d[lens[0]]) != 1:
+                    continue
+                dv = _N.view(lens[0][1])
+                rem = dv
+                while _is(rem, 'ref') or _is(rem, 'call') and re.search(r'to_radix_le$|as_slice$|Deref::deref$', _name(rem)):
+                    rem = _N.norm(rem[1] if _is(rem, 'ref') else rem[2][0])
+                # rem = div_rem(root, &ten_to_the_uint(T)).1
+                T_ = None
+                if _is(rem, 'field') and rem[2] == '1' and _N._callp(_N.norm(rem[1]), r'div_rem$'):
+                    dv_ = TB.strip_refs(_N.norm(_N.norm(rem[1])[2][1]))
+                    if _is(dv_, 'call') and re.search(r'ten_to_the_uint$|ten_to_the$', _name(dv_)) and dv_[2]:
+                        T_ = _N.lin2(dv_[2][0])
+                if T_ is None:
+                    und = 'digit vector is not to_radix_le(div_rem(root, 10^T).1): %s' % TB.show(rem)[:60]
+                    continue
+                if D is not None and _N.view(D) != dv and TB.strip_refs(_N.view(D)) != TB.strip_refs(dv):
+                    continue
+                sgn = d[lens[0]]
+                rest = _N.add(_N.add(d, {lens[0]: sgn}, -1), T_, sgn)       # d - sgn*(len - T)
+                if any(k != 1 for k in rest):
+                    und = 'comparison of len(D) with something other than T: %s' % TB.show(t0)[:80]
+                    continue
+                cst = rest.get(1, 0)
+                truth = (rel == 'notin' and 0 in val) or (rel == 'eq' and val != 0)
+                import operator as _o
+                opf = {'Lt': _o.lt, 'Le': _o.le, 'Gt': _o.gt, 'Ge': _o.ge, 'Eq': _o.eq, 'Ne': _o.ne}[t0[1]]
+                xs = {x for x in xs if opf(sgn * x + cst, 0) == truth}
+                seenD = True
+            if und and not seenD:
+                verdict.setdefault('undecided', und)
+            elif kind == 'top' and not xs <= {0}:
+                verdict.setdefault('violation', 'the top digit of the remainder is taken as the first discarded digit on a path where len(D) - T may be %s: with more leading zeros dropped by to_radix_le the digit at position T-1 is 0, not the top digit' % sorted(xs - {0})[-1])
+            elif kind == 'zero' and 0 in xs:
+                verdict.setdefault('violation', 'the first discarded digit is taken to be 0 on a path where len(D) == T is possible: the top digit of the remainder is lost')
+            else:
+                verdict.setdefault('ok', 'split_last(D) only where len(D) == T, constant 0 only where len(D) < T')
+    if not verdict:
+        return 0
+    if 'violation' in verdict:
+        rep.violation(rule, key, verdict['violation'], fn.where())
+    elif 'undecided' in verdict:
+        rep.undecided(rule, key, verdict['undecided'], fn.where())
+    else:
+        rep.ok(rule, key, verdict['ok'], fn.where())
     return 1
